@@ -5,6 +5,15 @@ Model: `JF/Model/ConcreteWorld.lean` (namespace `JF.CW`): point masses (`Kin.ste
 (`Occ.update`, C11) + the yields of the tagger classes (`CellTaggers`, C10) + handler kind ↦ event kind.  Lemmas:
 `JF/Lemmas/ConcreteWorld.lean`.  Everything here holds for an ARBITRARY scalar type (exact or binary64 reading): positions enter the
 yields only through `Env.cellOf`.
+
+* `footprintsSound_concrete` — `FootprintsSound c (world env c) (Tr env c)` for every `Supported` wiring;
+* `fresh_concrete`, `clause_h_concrete` — C09's freshness / C08's clause (h) at this world without the `FootprintsSound` hypothesis;
+  `fresh_cell_bounded`, `fresh_cell_veto`, `fresh_power_bounded`, `fresh_power_bounded_dump` for the shipped coulomb_atoms wirings;
+* `Example.run4` … — a run of `cell_bounded.ini` with three point masses (non-vacuity);
+* `Example.quiet_commit_needs_premise` — FINDING about the tables: `affects (sampling|dumping|endOfRun) (.cell l) = false` holds only
+  under the C11 history premise `StaysInRecordedCell`, which is therefore part of `Tr` for those kinds.
+What remains hypothesis: that premise (derived elsewhere from a pending cell-boundary candidate + the scheduler's minimality:
+`JF.Links.active_unit_stays_in_recorded_cell`), and the modelling assumptions of the world (point masses, one pair-factor type).
 -/
 import JF.Lemmas.ConcreteWorld
 import JF.Props.C09
@@ -22,7 +31,7 @@ footprint `affects (tagger E)` and the dependency footprint `reads (tagger T)` a
 (`Tr`: the `Kin.step` of an event of `E`'s kind, then the activator's occupancy update) does not change what `T` yields, as far
 as C09's comparison for `T` sees it.  The states are the consistent ones (`CW.G`; consistency is preserved by every raw
 transition: `CW.trRaw_consistent`), and a commit of a sampling / dumping / end-of-run event carries the C11 history premise
-`StaysInRecordedCell` (see `quiet_commit_needs_premise` below: without it the table entry `affects · (.cell l) = false` is wrong). -/
+`StaysInRecordedCell` (see `Example.quiet_commit_needs_premise` below: without it the table entry `affects · (.cell l) = false` is wrong). -/
 theorem footprintsSound_concrete (env : Env α) (c : Wiring) (hs : Supported c = true) :
     FootprintsSound c (world env c) (Tr env c) := by
   constructor
@@ -186,29 +195,29 @@ namespace Example
 
 abbrev cfg : Wiring := cfg_coulomb_atoms_cell_bounded
 
-def env : Env ℚ :=
+def env : Env Rat :=
   { o := Ops.rat, L := [1], grid := ⟨[7], 1⟩
     cellOf := fun p => (Ops.rat.toInt (p.headD 0 * 7)).toNat
     relevant := fun _ => true }
 
 /-- the commit of `ev` followed by the occupancy update (which succeeds: `h`) -/
-def next (g : CState ℚ) (ev : Kin.Ev ℚ)
-    (h : (occAfter env (hasOccOf cfg) g.occ (Kin.step env.o env.L g.us ev)).isSome = true) : CState ℚ :=
+def next (g : CState Rat) (ev : Kin.Ev Rat)
+    (h : (occAfter env (hasOccOf cfg) g.occ (Kin.step env.o env.L g.us ev)).isSome = true) : CState Rat :=
   ⟨Kin.step env.o env.L g.us ev, (occAfter env (hasOccOf cfg) g.occ (Kin.step env.o env.L g.us ev)).get h⟩
 
-theorem next_occ (g : CState ℚ) (ev : Kin.Ev ℚ) (h) :
+theorem next_occ (g : CState Rat) (ev : Kin.Ev Rat) (h) :
     occAfter env (hasOccOf cfg) g.occ (next g ev h).us = some (next g ev h).occ := by
   simp [next]
 
 /-- `SingleActiveCellOccupancy.initialize` on the three units -/
-def c0 : CState ℚ :=
+def c0 : CState Rat :=
   ⟨[⟨[1/14], none, none⟩, ⟨[3/14], none, none⟩, ⟨[9/14], none, none⟩], Occ.init 1 [⟨0, true, 0⟩, ⟨1, true, 1⟩, ⟨2, true, 4⟩]⟩
-def c1 : CState ℚ := next c0 (.start ⟨0, 0⟩ 0 [1]) (by decide +kernel)
-def c2 : CState ℚ := next c1 (.keep ⟨0, 1/28⟩) (by decide +kernel)
-def c3 : CState ℚ := next c2 (.snap ⟨0, 1/14⟩ 0 (1/7)) (by decide +kernel)
-def c4 : CState ℚ := next c3 (.lift ⟨0, 3/28⟩ 1) (by decide +kernel)
+def c1 : CState Rat := next c0 (.start ⟨0, 0⟩ 0 [1]) (by decide +kernel)
+def c2 : CState Rat := next c1 (.keep ⟨0, 1/28⟩) (by decide +kernel)
+def c3 : CState Rat := next c2 (.snap ⟨0, 1/14⟩ 0 (1/7)) (by decide +kernel)
+def c4 : CState Rat := next c3 (.lift ⟨0, 3/28⟩ 1) (by decide +kernel)
 
-def g0 : G env cfg := ⟨c0, by decide +kernel⟩
+def g0 : G env cfg := ⟨c0, consistent_at_rest env _ _ 1 _ (by decide +kernel)⟩
 def g1 : G env cfg := ⟨c1, consistent_after g0.2 (next_occ ..)⟩
 def g2 : G env cfg := ⟨c2, consistent_after g1.2 (next_occ ..)⟩
 def g3 : G env cfg := ⟨c3, consistent_after g2.2 (next_occ ..)⟩
@@ -245,12 +254,19 @@ theorem tr_cell_boundary : Tr env cfg 2 g2 g3 :=
 theorem tr_lift : Tr env cfg 1 g3 g4 :=
   ⟨Or.inl ⟨.lift ⟨0, 3/28⟩ 1, rfl, rfl⟩, next_occ .., fun _ h => absurd h (by decide)⟩
 
-theorem run4 : Run cfg W (Tr env cfg) 7 rs4 := by
-  refine .step rs3 rs4 1 g4 (.step rs2 rs3 2 g3 (.step rs1 rs2 4 g2 (.start (fun _ => none) g0 g1 s0 out0 rs1
-    (Option.some_get (x := first cfg.wires (initAct cfg.wires) 7 (fun T => W.yieldOf T g0)) (by decide +kernel)).symm
-    (by simp [rs1])) (by decide +kernel) (by decide) tr_sampling (by simp [rs2]))
-    (by decide +kernel) (by decide) tr_cell_boundary (by simp [rs3]))
-    (by decide +kernel) (by decide) tr_lift (by simp [rs4])
+theorem commit1 : commit cfg.wires W ⟨s0, assign (fun _ => none) out0, g0⟩ 7 g1 = some rs1 := by simp [rs1]
+theorem commit2 : commit cfg.wires W rs1 4 g2 = some rs2 := by simp [rs2]
+theorem commit3 : commit cfg.wires W rs2 2 g3 = some rs3 := by simp [rs3]
+theorem commit4 : commit cfg.wires W rs3 1 g4 = some rs4 := by simp [rs4]
+
+theorem run3 : Run cfg W (Tr env cfg) 7 rs3 :=
+  .step rs2 rs3 2 g3 (.step rs1 rs2 4 g2 (.start (fun _ => none) g0 g1 s0 out0 rs1
+    (Option.some_get (x := first cfg.wires (initAct cfg.wires) 7 (fun T => W.yieldOf T g0)) (by decide +kernel)).symm commit1)
+    (by decide +kernel) (by decide) (commit_g commit1 ▸ tr_sampling) commit2)
+    (by decide +kernel) (by decide) (commit_g commit2 ▸ tr_cell_boundary) commit3
+
+theorem run4 : Run cfg W (Tr env cfg) 7 rs4 :=
+  .step rs3 rs4 1 g4 run3 (by decide +kernel) (by decide) (commit_g commit3 ▸ tr_lift) commit4
 
 /-- the corollary applies to this run -/
 example : ∀ T, W.live T → Fresh W rs4 T := fresh_cell_bounded env run4
@@ -264,11 +280,37 @@ example : (getT rs4.act 3).running.map rs4.ids = [some [[1], [0]]] ∧ (getT rs4
 motion) the cell-bounding tagger is in its trash list or idle -/
 example : 0 ∈ (getW cfg.wires 1).trashes ∨ (getT rs3.act 0).running = [] :=
   clause_h_concrete env cfg 7 cfg_sound_coulomb_atoms_cell_bounded (by decide) supported_cell_bounded
-    (.step rs2 rs3 2 g3 (.step rs1 rs2 4 g2 (.start (fun _ => none) g0 g1 s0 out0 rs1
-      (Option.some_get (x := first cfg.wires (initAct cfg.wires) 7 (fun T => W.yieldOf T g0)) (by decide +kernel)).symm
-      (by simp [rs1])) (by decide +kernel) (by decide) tr_sampling (by simp [rs2]))
-      (by decide +kernel) (by decide) tr_cell_boundary (by simp [rs3]))
-    (by decide +kernel) (by decide) (by decide) (by decide) (by decide)
+    run3 (by decide +kernel) (by decide) (by decide) (by decide) (by decide)
+
+/-! ### the premise of the quiet commits is needed
+
+Two units: unit 0 active in cell 0 (x = 1/14, velocity 1 since time 0), unit 1 at rest at 1/2 (cell 3, not nearby cell 0).  A
+sampling event at time 2/7 time-slices unit 0 to 5/14 (cell 2); `update` then records cell 2, and cell 3 is nearby cell 2: the
+cell-bounding tagger yields one tuple before and none afterwards (the excluded-cells tagger none before and one afterwards), although
+`affects sampling (.cell 0) = false` declares the pair disjoint.  In a run this does not happen because the cell-boundary event of
+unit 0 (time 1/14) is pending and earlier — which is the premise. -/
+
+def d0 : CState Rat :=
+  ⟨[⟨[1/14], some [1], some ⟨0, 0⟩⟩, ⟨[1/2], none, none⟩],
+   { cap := 1, occupants := fun c => if c = 3 then [1] else [], surplus := [], activeId := some 0, activeCell := some 0 }⟩
+def d1 : CState Rat := next d0 (.keep ⟨0, 2/7⟩) (by decide +kernel)
+
+/-- **finding about the table**: without `StaysInRecordedCell` the entry `affects (sampling | dumping | endOfRun) (.cell l) = false`
+is wrong for the concrete world — a consistent state, a sampling commit (`keep` + occupancy update), a tagger pair the tables
+declare disjoint (`sampling` → `coulomb_cell_bounding`), and the yield changes -/
+theorem quiet_commit_needs_premise :
+    Consistent env (hasOccOf cfg) d0 ∧ TrNoPremise env (hasOccOf cfg) (cfg.tagger 4).kind d0 d1 ∧
+    disjointFP cfg (cfg.tagger 4) (cfg.tagger 0) = true ∧ ¬ StaysInRecordedCell env d0.occ d1.us ∧
+    yieldCls env (cfg.tagger 0).cls d0 = [some [[0], [1]]] ∧ yieldCls env (cfg.tagger 0).cls d1 = [] ∧
+    yieldCls env (cfg.tagger 1).cls d0 = [] ∧ yieldCls env (cfg.tagger 1).cls d1 = [some [[0], [1]]] ∧
+    ¬ ((yieldCls env (cfg.tagger 0).cls d1).map (viewOf (cfg.tagger 0))).Perm
+        ((yieldCls env (cfg.tagger 0).cls d0).map (viewOf (cfg.tagger 0))) := by
+  refine ⟨by decide +kernel, ⟨Or.inl ⟨.keep ⟨0, 2/7⟩, rfl, rfl⟩, next_occ ..⟩, by decide, ?_, by decide +kernel, by decide +kernel,
+    by decide +kernel, by decide +kernel, fun h => absurd h.length_eq (by decide +kernel)⟩
+  intro h
+  have := h 0 (by decide +kernel) rfl
+  revert this
+  decide +kernel
 
 end Example
 
